@@ -989,6 +989,50 @@ def _same_deep(a, b):
     return a == b
 
 
+class _Record:
+    """attribute and item access implemented with glom over wrapped data"""
+    def __init__(self, data):
+        self.data = data
+
+    @property
+    def title(self):
+        return G(self.data, 'meta.title')
+
+    def __getitem__(self, key):
+        return G(self.data, Path('fields', key))
+
+
+def operations_implemented_with_glom(col):
+    """the step of THIS expression that fails is what the error names, also when the operation's own implementation (a property, a
+    __getitem__) uses glom and fails with a PathAccessError of its own: that inner error is carried, like any other"""
+    ok_rec = lambda: _Record({'meta': {'title': 'T1'}, 'fields': {'n': 5, 'sub': {'x': 1}}})
+    bad_rec = lambda: _Record({'meta': {}, 'fields': {}})
+    cases = [
+        ('property succeeds', ok_rec, lambda: T.title, 'T1'), ('item succeeds', ok_rec, lambda: T['n'], 5), ('item then item', ok_rec, lambda: T['sub']['x'], 1),
+        ('property fails at step 0', bad_rec, lambda: T.title, ('pae', 0)), ('property fails at step 1', lambda: {'r': bad_rec()}, lambda: T['r'].title, ('pae', 1)),
+        ('property fails, later steps recorded', lambda: {'r': bad_rec()}, lambda: T['r'].title.upper(), ('pae', 1)),
+        ('item fails at step 0', bad_rec, lambda: T['n'], ('pae', 0)), ('item fails at step 2', lambda: {'a': {'r': bad_rec()}}, lambda: T['a']['r']['n'].real, ('pae', 2)),
+        ('item fails inside a Path', lambda: {'r': bad_rec()}, lambda: Path('r', T['n']), ('pae', 1)),
+        ('property fails inside a Path', lambda: {'r': bad_rec()}, lambda: Path(T['r'].title, 'x'), ('pae', 1)),
+        ('failing item as an argument', lambda: {'r': bad_rec(), 'f': (lambda v: v)}, lambda: T['f'](T['r']['n']), ('pae', 1)),
+    ]
+    for desc, mk_t, mk_spec, want in cases:
+        spec = mk_spec()
+        got = call(G, mk_t(), spec)
+        col.case(('operation-implemented-with-glom', desc), True)
+        col.count('glom_evaluations')
+        if isinstance(want, tuple):
+            col.count('failing_cases')
+            inner = getattr(got.exc, 'exc', None) if not got.ok else None
+            ok = (not got.ok) and isinstance(got.exc, PathAccessError) and got.exc.part_idx == want[1] and isinstance(inner, PathAccessError) and inner is not got.exc
+        else:
+            ok = got.ok and got.value == want
+        if not ok:
+            col.violation('C02/failing-operation-implemented-with-glom-not-reported-at-its-own-position', '%s: glom(.., %r) gives %r%s ; expected %s'
+                          % (desc, spec, got, '' if got.ok or not isinstance(got.exc, PathAccessError) else ' (part_idx %r, path %r)' % (got.exc.part_idx, got.exc.path),
+                             repr(want) if not isinstance(want, tuple) else 'a PathAccessError at position %d of this expression, carrying the inner one' % want[1]), None)
+
+
 def run(ctx):
     col, rng = ctx.col, ctx.rng
     col.require('glom_evaluations', 500)
@@ -1000,6 +1044,7 @@ def run(ctx):
         literal_arguments_are_per_evaluation(col)
         values_that_are_specs_are_data(col)
         call_arguments_are_evaluated_before_the_call(col)
+        operations_implemented_with_glom(col)
     for i in range(ctx.n(15000, 80000)):
         build = target_recipe(rng)
         e = gen_expr(rng, build, want_fail=rng.random() < 0.4)
